@@ -160,14 +160,22 @@ pub fn format12(map: &BTreeMap<u32, u16>, language: u32, ch: &mut Chooser) -> En
             }
         }
         if !joined {
-            groups.push((c, c, g as u32));
+            // a group may begin one code early at glyph 0: (c-1 -> 0, c -> 1, ...) says the same
+            // as (c -> 1, ...) when c-1 is unmapped
+            let free_before = c >= 1 && !map.contains_key(&(c - 1)) && groups.last().map_or(true, |l| l.1 < c - 1);
+            if g == 1 && free_before && ch.chance(2, 3) {
+                groups.push((c - 1, c, 0));
+                e.classes.insert("f12:group-starts-at-glyph-0");
+            } else {
+                groups.push((c, c, g as u32));
+            }
         }
         prev = Some((c, g));
     }
     // optionally a group that explicitly maps one unmapped code to glyph 0
     if ch.chance(1, 12) {
         let cand = [0u32, 0xFFFF, 0x10000, 0x10FFFF][ch.pick(4)];
-        if !map.contains_key(&cand) {
+        if !map.contains_key(&cand) && !groups.iter().any(|g| g.0 <= cand && cand <= g.1) {
             let at = groups.iter().position(|g| g.0 > cand).unwrap_or(groups.len());
             groups.insert(at, (cand, cand, 0));
             e.classes.insert("f12:null-group");
